@@ -481,6 +481,16 @@ func genSem(r *Rng, tier string) []string {
 			attached = !attached
 			ops = append(ops, "attach "+B(attached))
 		}
+		if dim > 0 && ncmd > 0 && r.Chance(1, 3) {
+			// a second command-embedding file loaded into the SAME index (regenerated embeddings): as many commands as before,
+			// other vectors (other magnitudes) - anything the index keeps per command must follow the new file
+			toks := make([]string, ncmd)
+			fam := Pick(r, []int{9, 7, 2, 1})
+			for i := range toks {
+				toks[i] = vecHex(randVecBits(r, dim, fam))
+			}
+			ops = append(ops, "reloadce "+strings.Join(toks, " "))
+		}
 	}
 	return ops
 }
@@ -1035,6 +1045,21 @@ func execEmbed(ops []string, mon *Mon) []string {
 				st.idx.CmdEmbeddings = append(st.idx.CmdEmbeddings, f32s(unVecBits(f[1])))
 			}
 			line = "ok"
+		case f[0] == "reloadce" && len(f) >= 2 && st.idx != nil:
+			vecs := make([][]uint32, 0, len(f)-1)
+			for _, t := range f[1:] {
+				vecs = append(vecs, unVecBits(t))
+			}
+			line = "scratch-error"
+			if path, err := writeScratch(buildCE(uint32(len(vecs)), uint32(st.idx.Dimension), vecs)); err == nil {
+				if err := st.idx.LoadCommandEmbeddings(path); err != nil {
+					line = "load-error " + errClass(err)
+				} else {
+					line = "ok"
+					mon.Tag("command-embeddings-reloaded")
+				}
+				os.Remove(path)
+			}
 		case f[0] == "db" && len(f) == 3:
 			n := Atoi(f[1])
 			st.db = &database.Database{Commands: embCommands(n)}
